@@ -34,6 +34,12 @@ type sysStep struct {
 	Conv  string `json:"conv"`
 }
 
+// api is how a history reaches one instance: a Plenc value's methods or the package-level functions.
+type api struct {
+	Marshal   func([]byte, interface{}) ([]byte, error)
+	Unmarshal func([]byte, interface{}) error
+}
+
 var catalogue []catItem
 
 func loadCatalogue() []catItem {
@@ -102,14 +108,20 @@ func execHist(h *caseHdr, ev M, line []byte) any {
 	}
 	cat := loadCatalogue()
 	insts := map[string]*plenc.Plenc{}
-	inst := func(name string) *plenc.Plenc {
-		if p, ok := insts[name]; ok {
-			return p
+	inst := func(name string) api {
+		if name == "pkg" {
+			return api{plenc.Marshal, plenc.Unmarshal}
 		}
-		c := cfgs[name]
-		p := newInstance(c)
-		insts[name] = p
-		return p
+		p, ok := insts[name]
+		if !ok {
+			c, known := cfgs[name]
+			if !known {
+				panic("unknown instance configuration " + name)
+			}
+			p = newInstance(c)
+			insts[name] = p
+		}
+		return api{p.Marshal, p.Unmarshal}
 	}
 	bufs := map[string][]byte{}
 	vars := map[int]reflect.Value{} // item index -> pointer to the decode target
